@@ -113,7 +113,12 @@ impl ExclusivePublication {
                 2,
             ),
         ];
-        let raw_tail = appenders[0].raw_tail();
+        // the log may be handed over with terms already elapsed: start from the active partition
+        let term_count = log_buffer_descriptor::active_term_count(&log_md_buffer);
+        let active_partition_index = log_buffer_descriptor::index_by_term_count(term_count as i64);
+        let raw_tail = appenders[active_partition_index as usize].raw_tail();
+        let initial_term_id = log_buffer_descriptor::initial_term_id(&log_md_buffer);
+        let position_bits_to_shift = number_of_trailing_zeroes(log_buffers.atomic_buffer(0).capacity());
 
         Self {
             conductor,
@@ -129,8 +134,12 @@ impl ExclusivePublication {
             position_bits_to_shift: number_of_trailing_zeroes(log_buffers.atomic_buffer(0).capacity()),
             term_offset: log_buffer_descriptor::term_offset(raw_tail, log_buffers.atomic_buffer(0).capacity() as i64),
             term_id: log_buffer_descriptor::term_id(raw_tail),
-            active_partition_index: 0,
-            term_begin_position: 0,
+            active_partition_index,
+            term_begin_position: log_buffer_descriptor::compute_term_begin_position(
+                log_buffer_descriptor::term_id(raw_tail),
+                position_bits_to_shift,
+                initial_term_id,
+            ),
             publication_limit,
             channel_status_id,
             is_closed: AtomicBool::from(false),
